@@ -128,6 +128,12 @@ class WirePropagateManager(WireManagerBase):
     def update(self):
         super().update()
 
+    @property
+    def is_defined(self) -> bool:
+        # wires that copied their gradings from coincident ones can all be defined
+        # but neighbours can only copy from an axis that also holds chops
+        return super().is_defined and len(self.chops) > 0
+
     def grade(self):
         """Checks each wire whether their coincidents (wires from other blocks)
         have grading defined already; if so, copy it and return True.
